@@ -165,7 +165,7 @@ Proof.
   intros t im s e. unfold secs.
   cbv [gen_is_runner_in_time_slot QA T add sub mul div ofZ leb ltb fmod].
   change (inject_Z 60) with 60.
-  rewrite andb_true_iff, negb_true_iff, Qle_bool_iff, Qle_bool_false. reflexivity.
+  rewrite andb_true_iff, ?negb_true_iff, ?Qle_bool_iff, ?Qle_bool_false. tauto.
 Qed.
 
 (* two different positions never contain the same in-cycle instant *)
